@@ -1,0 +1,20 @@
+//go:build verif
+
+package types
+
+// VerifYield is a scheduling hook for the verification harness (build tag verif only).
+// When non-nil it is called at the instrumented points of the relay path with the name of the point:
+//
+//	"relay.validated"  keeper.HandleRelay, after relay.Validate succeeded and before the proof is stored
+//	"setproof.read"    SetProof, after the evidence was read and before the updated evidence is written back
+//
+// The harness parks the calling goroutine inside the hook to force specific interleavings.
+// Production builds (without the tag) compile VerifYieldAt to an empty function.
+var VerifYield func(point string)
+
+// VerifYieldAt calls the hook if one is installed.
+func VerifYieldAt(point string) {
+	if f := VerifYield; f != nil {
+		f(point)
+	}
+}
